@@ -76,7 +76,7 @@ def run_unit(unit, workdir):
         f.write(ptext)
     with cf.ThreadPoolExecutor(2) as ex:
         fut = ex.submit(verus.run, path, workdir)
-        pfut = ex.submit(verus.run, ppath, workdir)
+        pfut = ex.submit(verus.run, ppath, workdir, None, 900, 2, 3)
         vr = fut.result()
         pr = pfut.result()
     res["verus_cmd"] = vr["cmd"]
@@ -164,17 +164,27 @@ def run_unit(unit, workdir):
     for k, v in vr["funcs"].items():
         res["times"][k] = v["ms"]
     # probes: every probe assertion must FAIL
+    # a probe is satisfied when Verus could NOT prove `false` there: either "assertion failed" at the probe
+    # line, or the (deliberately tiny) resource limit of the probe run was hit inside that function
     pdiag_lines = set()
+    undecided_fns = set()
     for d in pr["diags"]:
-        if d.level == "error" and "assertion failed" in d.message:
+        if d.level != "error":
+            continue
+        if "assertion failed" in d.message:
             for l in d.lines:
                 pdiag_lines.add(l[0])
+        elif d.kind == "undecided":
+            for l in d.lines:
+                fi = _fn_of_line(pinfos, l[0])
+                if fi is not None:
+                    undecided_fns.add(id(fi))
     n_probe = 0
     vacuous = []
     for pi in pinfos:
         for c in pi.probes:
             n_probe += 1
-            if not any(l in pdiag_lines for l in c.get("lines", [])):
+            if not any(l in pdiag_lines for l in c.get("lines", [])) and id(pi) not in undecided_fns:
                 vacuous.append("%s::%s::%s" % (unit, pi.name, c["text"]))
     psumm = (pr["summary"] or {}).get("verification-results", {})
     if n_probe and (pr["summary"] is None or psumm.get("encountered-vir-error")):
